@@ -5,12 +5,12 @@ from oracles import ArithOracle, ConsistencyOracle
 from propbase import StreamProperty
 
 RULE = ("ordered pairs of dimension lists drawn as permutations of non-empty subsets of the names {a,b,c,d} with "
-        "per-name extents (2,3,4,5) (pairwise distinct), all four operators, real and complex data, plus scalar / "
+        "per-name extents (2,3,4,5) (pairwise distinct) and a name of extent 1 (equal and differing single coordinate), all four operators, real and complex data, plus scalar / "
         "plain-array operands on either side and coordinate-mismatch pairs that must raise; quick = all pairs over 3 names "
         "+ a seeded sample over 4 names, thorough = all 64x64 pairs; non-trivial = the two operands differ in dims or "
         "axis order; distinct by canonical stream")
-EXT = {"a": 2, "b": 3, "c": 4, "d": 5}
-COORD = {"a": ["0", "1"], "b": ["3", "2", "1"], "c": ["0", "1/2", "1", "3/2"], "d": ["-2", "-1", "0", "1", "2"]}
+EXT = {"a": 2, "b": 3, "c": 4, "d": 5, "e": 1}
+COORD = {"a": ["0", "1"], "b": ["3", "2", "1"], "c": ["0", "1/2", "1", "3/2"], "d": ["-2", "-1", "0", "1", "2"], "e": ["7"]}
 
 
 def obj(oid, dims, cplx, salt):
@@ -55,6 +55,20 @@ def streams(tier, seed):
         b2 = obj(1, da, False, 5)
         b2["shape"][0] += 1; b2["coords"][0] = b2["coords"][0] + ["99"]; b2["values"] = selfdesc_values(b2["shape"], False, 5)
         out.append([obj(0, da, False, 0), b2, {"op": "binop", "f": "add", "lhs": 0, "rhs": 1, "out": 2}])
+    # a dimension of extent one (an 'Average' axis, say) is a dimension like any other: aligned by name when both have it,
+    # broadcast when one lacks it, and refused when the two single coordinates differ
+    l1 = dimlists(["a", "b", "e"])
+    pairs1 = [(x, y) for x in l1 for y in l1 if "e" in x or "e" in y]
+    if tier != "thorough":
+        pairs1 = rng.sample(pairs1, 60)
+    for da, db in pairs1:
+        out.append([obj(0, da, False, 0), obj(1, db, rng.random() < 0.3, 5),
+                    {"op": "binop", "f": rng.choice(ops4), "lhs": 0, "rhs": 1, "out": 2}])
+    for da, db in [(x, y) for x in l1 for y in l1 if "e" in x and "e" in y][:: (1 if tier == "thorough" else 7)]:
+        b = obj(1, db, False, 5)
+        b["coords"][db.index("e")] = ["5"]
+        for f in (ops4 if tier == "thorough" else [rng.choice(ops4)]):
+            out.append([obj(0, da, False, 0), b, {"op": "binop", "f": f, "lhs": 0, "rhs": 1, "out": 2}])
     # scalars and plain arrays on both sides
     for da in l3:
         for f in ops4:
